@@ -158,6 +158,7 @@ func encode(c *Case) ([]byte, []spec.Row, []int, []int, error) {
 }
 
 func runCase(c *Case) (o outcome) {
+	compkit.Journal(c)
 	o.probes = map[string]int{}
 	defer func() {
 		if e := recover(); e != nil {
